@@ -94,8 +94,8 @@ def run_case(ctx, case):
         rec.violation('generation_touches_other_files', {'case': case, 'mech': dict(mech, decoy=any(b in G.DECOYS for b in bad)),
                                                          'facts': {'paths': bad, 'diff': d}})
     for fn, data in g.bare[3].items():
-        if fn.startswith(GC.TMP_PREFIX):
-            continue                      # written under whatever $TMPDIR the run was given, not in the working directory
+        if GC.elsewhere(fn):
+            continue                      # written under $TMPDIR / $HOME, not in the working directory
         p = os.path.join(g.workdir, fn)
         if not os.path.exists(p):
             rec.violation('command_output_removed', {'case': case, 'mech': mech, 'facts': {'file': fn}})
